@@ -15,6 +15,8 @@ import YalafiVerif.Proofs.Shell
 import YalafiVerif.Proofs.Reports
 import YalafiVerif.Properties.SystemStmt
 import YalafiVerif.Properties.SystemMLStmt
+import YalafiVerif.Properties.SystemMLMixStmt
+import YalafiVerif.Properties.SystemMix3Stmt
 namespace Yalafi
 
 theorem C14_mapMatch_word (cm : List Int) (latex : Str) (o l : Nat) (c : Int)
